@@ -99,7 +99,7 @@ def stage(ctx, topics, per=1):
     from .. import dims
     descs = batch(ctx.seed, topics, per)
     dims.across_configurations(ctx.rec, descs)
-    ctx.rec.exhaustive.append(f"{len(descs)} calls ({', '.join(topics)}) evaluated under python -O, python -OO and another hash seed")
+    ctx.rec.exhaustive.append(f"{len(descs)} calls ({', '.join(topics)}) evaluated under python -O, python -OO, another hash seed and the C locale")
     return len(descs)
 
 
